@@ -243,6 +243,12 @@ func runC04(c *ctx) error {
 		var ext []world.Event
 		k := 1 + env.rng.Intn(6)
 		olds := append(append([]*world.Key{}, d.PastUpd...), d.PastRec...)
+		// ... including the key that the deactivation itself has spent (a recover signed with it, anchored later)
+		for _, e := range evs {
+			if e.Legit && e.Op.Spec.Type == operation.TypeDeactivate && e.Op.Spec.RevealKey != nil {
+				olds = append(olds, e.Op.Spec.RevealKey, e.Op.Spec.RevealKey)
+			}
+		}
 		for j := 0; j < k; j++ {
 			switch env.rng.Intn(4) {
 			case 0:
@@ -384,7 +390,11 @@ func runC06(c *ctx) error {
 			if cuts%3 == 1 {
 				hv.VersionTimeOffset = []int{7200, -19800, 3600, -3600, 45900}[cuts%5]
 			}
-			r.Count("version_time_spelling", fmt.Sprint(hv.VersionTimeOffset))
+			// an instant inside the second (every fourth cut): fractional seconds never move the cut
+			if cuts%4 == 2 {
+				hv.VersionTimeFrac = []string{".5", ".999999999", ".000000001", ".49", ".501"}[(cuts/4)%5]
+			}
+			r.Count("version_time_spelling", fmt.Sprint(hv.VersionTimeOffset)+hv.VersionTimeFrac)
 			restCheck(r, "", hv.VersionTimeText())
 			ocV := hv.Run(env.pc, env.tb, oidOf)
 			var tp, tu []world.Placed
